@@ -244,7 +244,7 @@ pub fn batch_json(ctx: &Ctx, scenario: &str, b: &Batch, extra: Vec<(&str, String
 }
 
 fn facets_arg(ctx: &Ctx) -> Vec<String> {
-    ctx.args.get("facets").map(|s| s.split(',').map(|x| x.to_string()).collect()).unwrap_or_else(|| vec!["api".into(), "bytes".into(), "oracle".into(), "open".into()])
+    ctx.args.get("facets").map(|s| s.split(',').map(|x| x.to_string()).collect()).unwrap_or_else(|| vec!["api".into(), "bytes".into(), "oracle".into(), "open".into(), "inv".into()])
 }
 
 /// generic random histories on one map
@@ -266,7 +266,8 @@ fn scen_hist(ctx: &Ctx) -> i32 {
     }
     let facets = facets_arg(ctx);
     let fr: Vec<&str> = facets.iter().map(|s| s.as_str()).collect();
-    let b = run_batch(ctx, seqs, |_| RunOpts { cmp_every, ..Default::default() }, &fr, "hist");
+    let check_inv = ctx.args.contains_key("check-inv");
+    let b = run_batch(ctx, seqs, |_| RunOpts { cmp_every, check_inv, ..Default::default() }, &fr, "hist");
     println!("{}", batch_json(ctx, "hist", &b, vec![]));
     if b.failures.is_empty() { 0 } else { 1 }
 }
